@@ -25,6 +25,9 @@ pub struct C07Job {
     pub flushers: usize,
     /// Total serialized entry length (header + key + value) per entry, grouped into batches.
     pub batches: Vec<Vec<usize>>,
+    /// 0 none, 1 zstd, 2 lz4 (the stored length then differs from the serialized length).
+    #[serde(default)]
+    pub compression: u8,
 }
 
 pub struct C07Prop;
@@ -37,6 +40,7 @@ fn cfg_for(job: &C07Job) -> HybCfg {
     c.blocks = job.blocks;
     c.flushers = job.flushers;
     c.mem_capacity = 4096;
+    c.compression = job.compression;
     c.buffer_pool_size = (4 * 1024 * 1024).max(job.block_size * 2) * job.flushers;
     c.indexer_shards = 2;
     c
@@ -65,7 +69,7 @@ fn run(job: &C07Job, res: &mut ShardResult) -> Vec<(String, String)> {
         res.add("batches", 1);
         // --- oracle D on the image ---
         let img = disk::capture(&w.dir);
-        let c = check_image(&img, &cfg, &enq, job.flushers);
+        let c = check_image(&img, &cfg, &enq, job.flushers, job.compression != 0);
         if !c.is_empty() {
             for m in c {
                 out.push(("Y.layout".to_string(), format!("after batch {bi}: {m}")));
@@ -114,7 +118,7 @@ fn check_reads(w: &World, from: usize, out: &mut Vec<(String, String)>, when: &s
 }
 
 /// Parse every block with the independent reader and compare with what was enqueued.
-fn check_image(img: &Image, cfg: &HybCfg, enq: &[(u64, usize)], flushers: usize) -> Vec<String> {
+fn check_image(img: &Image, cfg: &HybCfg, enq: &[(u64, usize)], flushers: usize, compressed: bool) -> Vec<String> {
     let mut out = vec![];
     let mut found: Vec<(u64, usize, usize, u64)> = vec![]; // (key, len, block, sequence)
     for (bi, part) in img.parts.iter().enumerate() {
@@ -125,9 +129,10 @@ fn check_image(img: &Image, cfg: &HybCfg, enq: &[(u64, usize)], flushers: usize)
             }
         }
     }
-    let mut want: Vec<(u64, usize)> = enq.to_vec();
+    // Under compression the stored length is not the serialized length: compare the keys only.
+    let mut want: Vec<(u64, usize)> = enq.iter().map(|e| (e.0, if compressed { 0 } else { e.1 })).collect();
     want.sort();
-    let mut got: Vec<(u64, usize)> = found.iter().map(|f| (f.0, f.1)).collect();
+    let mut got: Vec<(u64, usize)> = found.iter().map(|f| (f.0, if compressed { 0 } else { f.1 })).collect();
     got.sort();
     if want != got {
         let missing: Vec<_> = want.iter().filter(|x| !got.contains(x)).collect();
@@ -198,7 +203,20 @@ fn jobs(tier: Tier) -> Vec<C07Job> {
                         blocks: 8,
                         flushers,
                         batches: batches.clone(),
+                        compression: 0,
                     });
+                    if flushers == 1 && n <= 3 {
+                        for compression in [1u8, 2] {
+                            v.push(C07Job {
+                                regime: 'A',
+                                block_size: 16 * 1024,
+                                blocks: 8,
+                                flushers,
+                                batches: batches.clone(),
+                                compression,
+                            });
+                        }
+                    }
                 }
             }
             // odometer
@@ -237,6 +255,7 @@ fn jobs(tier: Tier) -> Vec<C07Job> {
                     blocks: 4,
                     flushers: 1,
                     batches: vec![vec![100; cut], vec![100; total - cut]],
+                    compression: 0,
                 });
             }
         }
@@ -246,6 +265,7 @@ fn jobs(tier: Tier) -> Vec<C07Job> {
             blocks: 4,
             flushers: 1,
             batches: vec![vec![100; total]],
+            compression: 0,
         });
     }
     // Regime C: 4 MiB blocks hold several full blobs: a non-first blob whose index fills exactly at (or
@@ -266,6 +286,7 @@ fn jobs(tier: Tier) -> Vec<C07Job> {
                             blocks: 2,
                             flushers: 1,
                             batches: b,
+                            compression: 0,
                         });
                     }
                 } else {
@@ -276,6 +297,7 @@ fn jobs(tier: Tier) -> Vec<C07Job> {
                         blocks: 2,
                         flushers: 1,
                         batches,
+                        compression: 0,
                     });
                 }
             }
@@ -309,7 +331,7 @@ impl Prop for C07Prop {
             }
             let c = run(job, &mut res);
             res.add("executions", 1);
-            res.fp(vcore::fingerprint(&(job.block_size, job.flushers, &job.batches)));
+            res.fp(vcore::fingerprint(&(job.block_size, job.flushers, job.compression, &job.batches)));
             if res.samples.len() < 2 {
                 res.sample(json!({"engine": "V", "batches": job.batches, "regime": job.regime.to_string()}), 2);
             }
@@ -357,7 +379,7 @@ impl Prop for C07Prop {
     }
 
     fn rule(&self) -> String {
-        "Engine V (FIFO schedule, sim IO), batches controlled exactly by the harness. Regime A (16 KiB blocks, 4 KiB blob index, at most 3 data pages per block): every sequence of up to 4 (quick) / 6 (thorough) entries over serialized lengths {100 B, exactly 1 page, 1 page + 1 byte, exactly 2 pages, exactly 3 pages = the per-entry maximum} x every way of cutting it into <= 4 batches x 1-2 flushers. Regime B (1 MiB blocks, so the 170-slot blob index fills before the block): entry counts around 170/255/340 with the batch cut at every position within +-1 of each boundary. Regime C (4 MiB blocks holding several full blobs): 350 (520) one-page entries cut into batches at every combination of positions within +-1 of the 170 / 340 (/ 510) index boundaries, so that non-first blobs fill exactly at, just before and just after a batch boundary. After every batch the partition files are parsed by the independent reader D: page alignment, containment, disjointness of entries and index pages, slot/header agreement, checksums, sequence monotonicity, and the scan must reconstruct exactly the (hash, length) multiset enqueued, in enqueue order per block. Then memory is emptied and every key is read back, and again after a graceful reopen. A case is one batch sequence.".into()
+        "Engine V (FIFO schedule, sim IO), batches controlled exactly by the harness. Regime A (16 KiB blocks, 4 KiB blob index, at most 3 data pages per block): every sequence of up to 4 (quick) / 6 (thorough) entries over serialized lengths {100 B, exactly 1 page, 1 page + 1 byte, exactly 2 pages, exactly 3 pages = the per-entry maximum} x every way of cutting it into <= 4 batches x 1-2 flushers (sequences of up to 3 entries also under zstd and lz4). Regime B (1 MiB blocks, so the 170-slot blob index fills before the block): entry counts around 170/255/340 with the batch cut at every position within +-1 of each boundary. Regime C (4 MiB blocks holding several full blobs): 350 (520) one-page entries cut into batches at every combination of positions within +-1 of the 170 / 340 (/ 510) index boundaries, so that non-first blobs fill exactly at, just before and just after a batch boundary. After every batch the partition files are parsed by the independent reader D: page alignment, containment, disjointness of entries and index pages, slot/header agreement, checksums, sequence monotonicity, and the scan must reconstruct exactly the (hash, length) multiset enqueued, in enqueue order per block. Then memory is emptied and every key is read back, and again after a graceful reopen. A case is one batch sequence.".into()
     }
 
     fn assumptions(&self) -> Vec<String> {
